@@ -435,7 +435,8 @@ struct Gen<'a> {
 fn gen_stages(g: &mut Gen<'_>, n: usize, mut finite: bool, depth: usize) -> (Vec<Stage>, bool) {
     let mut v = vec![];
     for _ in 0..n {
-        let pick = g.c.choose(if depth > 0 { 10 } else { 7 });
+        // a hard cap on the number of leaf iterators keeps the programs small
+        let pick = if g.next_leaf >= 7 { g.c.choose(6) } else { g.c.choose(if depth > 0 { 10 } else { 7 }) };
         let st = match pick {
             0 => Stage::Map([1, 2, 3, -1][g.c.choose(4)], g.c.choose(5) as i64),
             1 => {
@@ -492,10 +493,10 @@ fn gen_stages_simple(g: &mut Gen<'_>, n: usize) -> (Vec<Stage>, bool) {
 
 fn gen_pipe(g: &mut Gen<'_>, depth: usize, must_be_finite: bool) -> Pipe {
     let unbounded = !must_be_finite && g.c.chance(1, 4);
-    let src = if depth > 0 && g.c.chance(1, 5) {
+    let src = if depth > 0 && g.next_leaf < 7 && g.c.chance(1, 5) {
         let k = g.c.choose(4);
         Src0::Concat((0..k).map(|_| gen_pipe(g, depth - 1, true)).collect())
-    } else if depth > 0 && g.c.chance(1, 6) {
+    } else if depth > 0 && g.next_leaf < 7 && g.c.chance(1, 6) {
         Src0::Repeat(Box::new(gen_pipe(g, depth - 1, true)), 2 + g.c.choose(2))
     } else {
         let leaf = g.next_leaf;
